@@ -354,19 +354,17 @@ def run(ctx, R):
 
 
 def _deploy_rules(ctx, R):
-    prog = ctx.prog
-    f = prog.func('placement.deploy:deploy')
-    assigns = {}
-    for n in own_nodes(f.node):
-        if isinstance(n, ast.Assign) and len(n.targets) == 1 and isinstance(
-                n.targets[0], ast.Name):
-            assigns.setdefault(n.targets[0].id, []).append(n)
-    # auth middleware on both branches
-    am = assigns.get('auth_middleware', [])
-    vals = sorted((prog.dotted(f.module, a.value.func if isinstance(
-        a.value, ast.Call) else a.value, f) or src(a.value)) for a in am)
-    ok = vals == ['placement.auth.NoAuthMiddleware',
-                  'placement.auth.filter_factory']
+    P = C.pipeline(ctx)
+    f = P.func
+    AUTH = ['placement.auth.NoAuthMiddleware', 'placement.auth.filter_factory']
+    CTX = ['placement.auth.PlacementKeystoneContext']
+    # the variable holding the auth middleware: the one whose values are
+    # the two auth classes
+    am_names = [k for k, vs in P.values.items() if set(vs) & set(AUTH)]
+    am = P.assigns.get(am_names[0], []) if len(am_names) == 1 else []
+    vals = P.values.get(am_names[0], []) if len(am_names) == 1 else \
+        sorted(am_names)
+    ok = vals == AUTH
     branch_ok = False
     if len(am) == 2:
         ifs0 = C.guarding_ifs(am[0], f.node)
@@ -374,53 +372,28 @@ def _deploy_rules(ctx, R):
         branch_ok = bool(ifs0) and bool(ifs1) and ifs0[0][0] is ifs1[0][0] \
             and {ifs0[0][1], ifs1[0][1]} == {'body', 'orelse'}
     R.ob('R16.4', 'deploy:auth_middleware', ok and branch_ok,
-         'auth_middleware is NoAuthMiddleware or the keystone filter on the '
-         'two branches of the strategy switch', '%s (both branches: %s)' % (
-             vals, branch_ok), func=f)
-    cm = assigns.get('context_middleware', [])
-    okc = len(cm) == 1 and prog.dotted(f.module, cm[0].value, f) == \
-        'placement.auth.PlacementKeystoneContext'
+         'the auth middleware is NoAuthMiddleware or the keystone filter on '
+         'the two branches of the strategy switch',
+         '%s (both branches: %s)' % (vals, branch_ok), func=f)
+    ipos, apos = P.position(CTX[0]), P.position(AUTH[0])
+    okc = ipos is not None and P.order[ipos][1] == CTX
     R.ob('R16.4', 'deploy:context_middleware', okc,
-         'context_middleware = auth.PlacementKeystoneContext',
-         [src(a.value) for a in cm], func=f)
-    # the wrapping loop
-    loops = [n for n in own_nodes(f.node) if isinstance(n, ast.For)]
-    okl = False
-    found = 'no wrapping loop'
-    order = []
-    for lp in loops:
-        if isinstance(lp.iter, (ast.Tuple, ast.List)) and isinstance(
-                lp.target, ast.Name):
-            order = [x.id for x in lp.iter.elts if isinstance(x, ast.Name)]
-            wraps = [n for n in own_nodes_of(lp) if isinstance(n, ast.Assign)
-                     and isinstance(n.value, ast.Call)
-                     and isinstance(n.value.func, ast.Name)
-                     and n.value.func.id == lp.target.id
-                     and [src(a) for a in n.value.args] == ['application']
-                     and src(n.targets[0]) == 'application']
-            guards = [n for n in own_nodes_of(lp) if isinstance(n, ast.If)]
-            only_truthy = all(isinstance(g.test, ast.Name)
-                              and g.test.id == lp.target.id for g in guards)
-            okl = bool(wraps) and only_truthy and \
-                'auth_middleware' in order and 'context_middleware' in order
-            found = 'order %s' % order
+         'one of the wrapped middlewares is auth.PlacementKeystoneContext '
+         '(and nothing else)', P.order[ipos][1] if ipos is not None
+         else 'not in the wrapped tuple', func=f)
+    found = 'order %s' % [vs for _n, vs in P.order]
+    okl = P.loop is not None and P.loop_ok and ipos is not None and \
+        apos is not None and P.order[apos][1] == AUTH
     R.ob('R16.4', 'deploy:wrapping', okl,
-         'application = middleware(application) for a tuple containing the '
-         'auth and context middleware, skipped only when the middleware is '
-         'None', found, func=f)
+         'app = middleware(app) for a tuple containing the auth and context '
+         'middleware, skipped only when the middleware is None', found,
+         func=f)
     if okl:
-        R.ob('R16.4', 'deploy:order',
-             order.index('context_middleware') < order.index(
-                 'auth_middleware'),
+        R.ob('R16.4', 'deploy:order', ipos < apos,
              'context middleware inside the auth middleware (it reads the '
              'identity headers the auth middleware sets)', found, func=f)
-    # nothing returns the bare application
-    rets = [n for n in own_nodes(f.node) if isinstance(n, ast.Return)]
-    okr = len(rets) == 1 and src(rets[0].value) == 'application' and \
-        cfgmod.cfg_of(f).dominates(loops[0], rets[0]) if loops else False
-    R.ob('R16.4', 'deploy:return', okr,
-         'deploy() returns the wrapped application', [src(r.value)
-                                                      for r in rets], func=f)
+    R.ob('R16.4', 'deploy:return', P.ret_ok,
+         'deploy() returns the wrapped application', P.app_var, func=f)
 
 
 def _path_literals(func):
